@@ -459,7 +459,7 @@ def run(tier: str, seed: int) -> dict:
     cases = build_cases(tier, seed)
     cases.sort(key=lambda c: 0 if (c["task"] == "minimal_medium" and c["minimize_components"]) else 1)
     t_gen = time.time() - t0
-    deadline = (80 if tier == "quick" else 840) - t_gen
+    deadline = (55 if tier == "quick" else 840) - t_gen
     results = U.run_pool(run_case, cases, deadline=max(10, deadline), chunksize=4)
     n_models = len({U.case_sig(c["spec"]["reactions"]) for c in cases})
     rule = ("2 corner + seeded random models (2-6 exchanges written either way with import/export/closed/forced bounds, "
